@@ -163,7 +163,7 @@ class VariantCheck(SeqCheck):
         groups = {}
         for header, cfg, ops, got in collect:
             m = re.match(r'# randv seed=(\d+) n=(\d+) variant=(\S+)', header)
-            if m: groups.setdefault((m.group(1), m.group(2)), []).append((m.group(3), cfg, ops, got))
+            if m: groups.setdefault((m.group(1), m.group(2)), []).append((m.group(3), cfg, ops, [re.sub(r' \| at=\S*', '', x) for x in got]))
         disagreements = 0; compared = 0
         for key, vs in groups.items():
             ref = vs[0]
